@@ -444,6 +444,60 @@ def one_history(ctx, gid, n_steps, mon):
     return P
 
 
+def zero_divisors(ctx):
+    """A divisor that holds zeros (a closed valve in a column of rates): whatever the quotient is - inf, nan, a
+    ZeroDivisionError for plain Python numbers - dividend and divisor, and the containers the caller built them from,
+    hold afterwards what they held before. Every class x container kind x {/, //} x {same unit, another unit, a number on
+    the left, a numpy array on the left}; snapshots compare bytes / reprs."""
+    import warnings
+
+    import numpy as np
+    from barril.units import Array, FixedArray
+
+    def snap(o, cont):
+        v = o.GetValues() if hasattr(o, "GetValues") else o
+        return (repr(o.GetQuantity()) if hasattr(o, "GetQuantity") else None, v.tobytes() if isinstance(v, np.ndarray) else repr(v), cont.tobytes() if isinstance(cont, np.ndarray) else repr(cont), id(v))
+
+    n = 0
+    with warnings.catch_warnings():
+        warnings.simplefilter("ignore")
+        for cls_name, mk_obj in (("Array", lambda c, u: Array("length", c, u)), ("FixedArray", lambda c, u: FixedArray(3, "length", c, u))):
+            for kind, mk in (("nd", lambda v: np.array(v, dtype=float)), ("nd32", lambda v: np.array(v, dtype=np.float32)), ("ndint", lambda v: np.array(v, dtype=np.int64)), ("list", list), ("tuple", tuple)):
+                for zeros in ([1.0, 0.0, 2.0], [0.0, 0.0, 0.0], [4.0, 2.0, 0.0], [-0.0, 5.0, 1.0]):
+                    for left_kind in ("same unit", "another unit", "number", "ndarray", "derived"):
+                        for sym in ("/", "//"):
+                            dcont = mk(zeros)
+                            divisor = mk_obj(dcont, "m")
+                            lcont = mk([3.0, 0.0, 6.0])
+                            if left_kind == "same unit":
+                                left = mk_obj(lcont, "m")
+                            elif left_kind == "another unit":
+                                left = mk_obj(lcont, "cm")
+                            elif left_kind == "number":
+                                left = 2.0
+                            elif left_kind == "ndarray":
+                                left = np.array([3.0, 0.0, 6.0])
+                            else:
+                                left = mk_obj(lcont, "m") * mk_obj(mk([1.0, 2.0, 3.0]), "cm")
+                            before = (snap(divisor, dcont), snap(left, lcont) if hasattr(left, "GetValues") else repr(left))
+                            ctx.ev()
+                            n += 1
+                            case = {"class": cls_name, "container": kind, "divisor": zeros, "left": left_kind, "op": sym}
+                            ctx.nt(("zero divisor", cls_name, kind, left_kind, sym))
+                            try:
+                                res = left / divisor if sym == "/" else left // divisor
+                                del res
+                            except (ZeroDivisionError, TypeError, ValueError):
+                                ctx.count("zero divisors: the division was refused")
+                            except Exception as e:
+                                ctx.violation("zero-divisor:raised:%s" % type(e).__name__, dict(case, error=str(e)[:160]))
+                            after = (snap(divisor, dcont), snap(left, lcont) if hasattr(left, "GetValues") else repr(left))
+                            if after != before:
+                                which = "divisor" if after[0] != before[0] else "dividend"
+                                ctx.violation("operand-changed-by:division-by-a-divisor-holding-zeros:%s" % which, dict(case, holds_now=repr(divisor.GetValues())[:100] if which == "divisor" else repr(left)[:100]), replay={"zero_divisors": True})
+    ctx.count("divisions by a divisor holding zeros", n)
+
+
 def validation_with_limits(ctx, r, n):
     """Validation is an operation too: on categories that *have* limits (the shipped database has none), with NaN
     elements (skipped by design), in every container kind - validating, again and again, leaves the container
@@ -545,6 +599,9 @@ def run(ctx):
 
     suite_workload.run(ctx, "C13")
     validation_with_limits(ctx, ctx.rng("limits"), 150 if ctx.tier == "quick" else 3000)
+    if ctx.shard == 0:
+        with table.pushed(db):
+            zero_divisors(ctx)
     ctx.notes["operand_monitor"] = {"boundary_calls_observed": mon.n_calls, "operand_snapshots_compared": mon.n_snapshots}
     ctx.inconclusive_if(mon.n_snapshots < 1000, "operand monitor compared fewer than 1000 snapshots")
     ctx.inconclusive_if(probe.BOUNDARY["Scalar.__reduce__"] == 0 and probe.COUNTS["Scalar.__reduce__"] == 0, "pickle path never reached")
@@ -560,4 +617,7 @@ def replay(ctx, d):
     if d and "seed" in d:
         os.environ["VERIF_SEED"] = str(d["seed"])
     with table.pushed(db):
-        one_history(ctx, int(d["history"]) if d else 0, 250, mon)
+        if d and d.get("zero_divisors"):
+            zero_divisors(ctx)
+        else:
+            one_history(ctx, int(d["history"]) if d else 0, 250, mon)
